@@ -9,22 +9,36 @@ ALL = ["C%02d" % i for i in range(1, 21)]
 
 TECH = "bounded symbolic (concolic) execution of the real Python functions with z3 deciding every path; counterexamples replayed on the pristine package"
 
-CLAIMS = {
-    "C03": dict(
-        text="For every year in -1 000 000..999 999 (symbolic 400-year cycle index and residue), every valid day and "
-             "each of the 4 calendar modes, z3 shows on every feasible path of the real conversion and length functions "
-             "that the result is valid and denotes the same oracle day; the days-in-year-range kernel is discharged "
-             "against its closed form for spans up to 10^6 years. Bounded claim (see evidence bounds), not a proof.",
-        note="Trusted: CPython, z3, the symx proxies/shims (validated each run by the repository's own tests through the "
-             "instrumented loader), refmodel.py (cross-checked against datetime). L1 obligations use the closed form of "
-             "get_days_in_year_range that the L0 obligation of the same run discharges.",
-        design="DESIGN.md section 6 C03"),
-}
+def claims():
+    """claim text comes from each check module's INFO"""
+    import importlib
+    import sys
+    sys.path.insert(0, HERE)
+    out = {}
+    for pid in ALL:
+        if not os.path.exists(os.path.join(HERE, "checks", pid.lower() + ".py")):
+            continue
+        mod = importlib.import_module("checks." + pid.lower())
+        info = getattr(mod, "INFO", None)
+        if not info or getattr(mod, "DISABLED", False):
+            continue
+        q = info.get("bounds", {}).get("quick", info.get("bounds", {}))
+        out[pid] = dict(
+            text=info["explanation"] + " Verdict = z3 unsat on every feasible path inside the stated bounds (quick tier: %s). "
+                 "A bounded claim, not a proof; outside the claim: %s." % (
+                     json.dumps(q, sort_keys=True), "; ".join(info.get("outside", [])) or "nothing further"),
+            note="Trusted: CPython, z3, the symx proxies/shims (validated on every run by executing the repository's own "
+                 "tests through the instrumented loader), refmodel.py (cross-checked against datetime). " +
+                 " ".join(a.rstrip(".") + "." for a in info.get("assumptions", [])),
+            design="DESIGN.md section 6 " + pid)
+    return out
+
 
 PENDING_REASON = "check not built yet in this round (planned: DESIGN.md section 6); nothing is claimed"
 
 
 def main():
+    CLAIMS = claims()
     checks = []
     na = []
     for pid in ALL:
